@@ -20,6 +20,7 @@ SFILE = "python/gherkin/token_scanner.py"
 
 def _run(q):
     I = new_interp()
+    I.no_fuse.add(f"{LQ}.split_table_cells")
     fi = I.facts.func(q)
     tree, rv, st = I.run(q)
     return I, fi, tree, rv, st
